@@ -114,3 +114,51 @@ PROFILES += [
     },
 ]
 FILES[FV] = {"imports": ["FlVerif.Op.PyExtEngineIO"]}
+
+# ---- Settings.__init__, the lazy property Settings.factory_manager (C20)
+DOC_SET = """
+* `Settings.__init__`, `Settings.factory_manager` (getter and setter; `library.py`): the object is the map from attribute
+  index to value of the `Settings.context` tie (`store`), `Py.W5.attr name` is the index of a setting in the regenerated
+  key list; the arguments of `__init__` are the map `args` (a parameter that is not given = its default: whatever the
+  caller's map holds), `logging.getLogger("fuzzylite")` is the parameter `default_logger`, `FactoryManager()` the parameter
+  `fresh` (the identity of the object that is created).
+"""
+__doc__ += DOC_SET
+FS = "CodeWave5XSet"
+OST = "Nat → Option Nat"
+SETTINGS = ["float_type", "decimals", "atol", "rtol", "alias", "logger", "factory_manager"]
+
+
+def attr(name):
+    return f'(Py.W5.attr "{name}")'
+
+
+def store(name, value):
+    return f"{{{{ σ with store := Py.Settings.setattr σ.store {attr(name)} {value} }}}}"
+
+
+PROFILES += [
+    {
+        "name": "Settings_init", "module": "fuzzylite.library", "object": "Settings.__init__", "file": FS,
+        # `store0`: the attributes of the object before the constructor runs (none of the seven)
+        "params": [("args", OST), ("default_logger", "Nat"), ("store0", OST)], "init": {"store": "store0"}, "locals": {"store": OST},
+        "externals": [(p, f"(args {attr(p)})", "Option Nat", True) for p in SETTINGS]
+        + [("logging.getLogger('fuzzylite')", "default_logger", "Nat", True)],
+        "stmt_externals": [(f"self.{p} = _0", store(p, "{0}"), True, ["Option Nat"]) for p in SETTINGS if p not in ("logger", "factory_manager")]
+        + [("self.logger = _0", store("logger", "(some {0})"), True, ["Nat"]),
+           ("self._factory_manager = _0", store("factory_manager", "{0}"), True, ["Option Nat"])],
+    },
+    {
+        "name": "Settings_factory_manager_get", "module": "fuzzylite.library", "object": "Settings.factory_manager.fget", "file": FS,
+        "params": [("store0", OST), ("fresh", "Nat")], "init": {"store": "store0"}, "locals": {"store": OST}, "ret": "Option Nat",
+        "externals": [("self._factory_manager", f"(σ.store {attr('factory_manager')})", "Option Nat", True),
+                      ("FactoryManager()", "fresh", "Nat", True)],
+        "stmt_externals": [("self._factory_manager = _0", store("factory_manager", "(some {0})"), True, ["Nat"])],
+    },
+    {
+        "name": "Settings_factory_manager_set", "module": "fuzzylite.library", "object": "Settings.factory_manager.fset", "file": FS,
+        "params": [("store0", OST), ("value", "Option Nat")], "init": {"store": "store0"}, "locals": {"store": OST},
+        "stmt_externals": [("self._factory_manager = _0", store("factory_manager", "{0}"), True, ["Option Nat"])],
+    },
+]
+FILES[FS] = {"imports": ["FlVerif.Op.PyExtWave5XSet"]}
